@@ -95,7 +95,10 @@ func (fc *FnCtx) baseConst(st *State, comp, sort string) string {
 	if st.epoch == 0 {
 		a := baseName("alloc", 0)
 		fc.vc.declare(a, "Int")
-		fc.vc.assertGlobal(fc.closure(n, comp, a))
+		fc.vc.frontier[n] = a
+		if useClosureAxioms {
+			fc.vc.assertGlobal(fc.closure(n, comp, a))
+		}
 	}
 	return n
 }
@@ -107,6 +110,9 @@ func (fc *FnCtx) closure(term, comp, frontier string) string {
 	if et == nil {
 		return "true"
 	}
+	if _, isBasic := et.Underlying().(*types.Basic); isBasic {
+		return "true" // scalar cells: their ranges are assumed at each load instead
+	}
 	vc.nfresh++
 	r := fmt.Sprintf("q!cl!%d", vc.nfresh)
 	switch {
@@ -115,14 +121,14 @@ func (fc *FnCtx) closure(term, comp, frontier string) string {
 		if wt == "true" {
 			return "true"
 		}
-		return "(forall ((" + r + " Int)) (! (=> (and (<= 0 " + r + ") (<= " + r + " " + frontier + ")) " + wt + ") :pattern ((select " + term + " " + r + "))))"
+		return "(forall ((" + r + " Int)) (! (=> (and (<= 0 " + r + ") (<= " + r + " " + frontier + ")) " + wt + ") :pattern ((select " + term + " " + r + ")) :qid cl." + smtIdent(comp) + "))"
 	case strings.HasPrefix(comp, "E."), strings.HasPrefix(comp, "CL."):
 		i := r + "i"
 		wt := fc.wellTyped("(select (select "+term+" "+r+") "+i+")", et, frontier, 1)
 		if wt == "true" {
 			return "true"
 		}
-		return "(forall ((" + r + " Int) (" + i + " Int)) (! (=> (and (<= 0 " + r + ") (<= " + r + " " + frontier + ")) " + wt + ") :pattern ((select (select " + term + " " + r + ") " + i + "))))"
+		return "(forall ((" + r + " Int) (" + i + " Int)) (! (=> (and (<= 0 " + r + ") (<= " + r + " " + frontier + ")) " + wt + ") :pattern ((select (select " + term + " " + r + ") " + i + ")) :qid cl." + smtIdent(comp) + "))"
 	case strings.HasPrefix(comp, "MV."):
 		mt, ok := typeByKey(comp[3:]).Underlying().(*types.Map)
 		if !ok {
@@ -188,10 +194,17 @@ func (fc *FnCtx) havocComp(comp, sort, frontier string) string {
 	fc.cur.sorts[comp] = sort
 	fc.cur.heap[comp] = n
 	if !fc.noClosure {
-		fc.vc.assume(fc.cur.reach, fc.closure(n, comp, frontier))
+		fc.vc.frontier[n] = frontier
+		if useClosureAxioms {
+			fc.vc.assume(fc.cur.reach, fc.closure(n, comp, frontier))
+		}
 	}
 	return n
 }
+
+// useClosureAxioms: quantified typing closures per component version. Off: the same facts are added as ground
+// assumptions at each load (see loadFact), which avoids tens of thousands of quantifier instantiations.
+const useClosureAxioms = true
 
 func (fc *FnCtx) setComp(comp, sort, term string) {
 	fc.cur.sorts[comp] = sort
@@ -202,7 +215,36 @@ func (fc *FnCtx) setComp(comp, sort, term string) {
 		fc.vc.assert(mkEq(n, term))
 		term = n
 	}
+	if comp != "alloc" {
+		// everything stored so far is well typed for the current frontier
+		fc.vc.frontier[term] = fc.alloc()
+	}
 	fc.cur.heap[comp] = term
+}
+
+// loadFact: the value read from an allocated cell of a component version is well typed for that version's
+// frontier (ground instance of the typing closure).
+func (fc *FnCtx) loadFact(l *Loc, st *State, v string) {
+	var compTerm, ref string
+	switch l.Kind {
+	case locField, locBox:
+		compTerm = fc.compAt(st, l.Comp, arraySort(fc.sortStr(l.rootType())))
+		ref = l.Ref
+	case locElem:
+		compTerm = fc.compAt(st, l.Comp, arraySort(arraySort(fc.sortStr(l.rootType()))))
+		ref = l.Ref
+	default:
+		return
+	}
+	f, ok := fc.vc.frontier[compTerm]
+	if !ok {
+		return
+	}
+	wt := fc.wellTyped(v, l.Typ, f, 1)
+	if wt == "true" {
+		return
+	}
+	fc.vc.assume(fc.cur.reach, mkImplies("(and (<= 0 "+ref+") (<= "+ref+" "+f+"))", wt))
 }
 
 func (fc *FnCtx) alloc() string { return fc.getComp("alloc", "Int") }
@@ -342,6 +384,7 @@ func (fc *FnCtx) load(l *Loc) (Val, error) {
 		return Val{}, err
 	}
 	fc.touch(l)
+	fc.loadFact(l, fc.cur, t)
 	return Val{T: t, S: fc.vc.sortOf(l.Typ), Typ: l.Typ}, nil
 }
 
@@ -498,6 +541,7 @@ func (fc *FnCtx) mergeStates(states []*State, conds []string, tag string) *State
 		ks = append(ks, k)
 	}
 	sort.Strings(ks)
+	var merged []string
 	rc := fc.vc.fresh("reach."+tag, "Bool")
 	fc.vc.assert(mkEq(rc, mkOr(conds...)))
 	out.reach = rc
@@ -527,6 +571,14 @@ func (fc *FnCtx) mergeStates(states []*State, conds []string, tag string) *State
 		}
 		fc.vc.assert(mkEq(n, t))
 		out.heap[k] = n
+		if k != "alloc" {
+			merged = append(merged, n)
+		}
+	}
+	if a, ok := out.heap["alloc"]; ok {
+		for _, n := range merged {
+			fc.vc.frontier[n] = a // alloc is monotone: the merged frontier bounds every incoming one
+		}
 	}
 	// components missing in `out` but with differing epochs fall back to their base constants of maxEpoch;
 	// states with a lower epoch that never touched them would disagree, so pin them explicitly.
